@@ -1,5 +1,6 @@
 """C16 REPLWrapper."""
 import ast
+import re
 
 from ..astx import (calls_in, dotted, norm, src, iter_nodes, assigned_targets, assigned_names,
                     const_value, is_const, parent_chain)
@@ -90,18 +91,24 @@ def check_collect(c, f, recv):
     c.need(len(loops) == 1, '%s: expected one for loop' % f.qual)
     loop = loops[0]
     hdr = g.node_of_stmt(loop)
-    lines = loop.iter.value.id if isinstance(loop.iter, ast.Subscript) and isinstance(loop.iter.value, ast.Name) else 'cmdlines'
+    # (a local that holds the slice / the first line is read as its expression when it cannot have gone stale: `first, rest = lines[0], lines[1:]`)
+    from ..linear import aliases_of
+    al_ = aliases_of(f)
+    keep_ = set(nm for nm, v_ in dict(getattr(al_, 'single_assign', {})).items() if not isinstance(v_, (ast.Subscript, ast.Name)))
+    it_txt = ctext(loop.iter, f, keep=keep_) or norm(loop.iter)
+    m_ = re.match(r'^([A-Za-z_][A-Za-z_0-9]*)\[[^\]]*:[^\]]*\]$', it_txt)
+    lines = m_.group(1) if m_ else 'cmdlines'
     rcands = [k.func.value.id for k in calls_in(loop) if callee_last(k) == 'append' and isinstance(k.func.value, ast.Name)]
     RES = rcands[0] if rcands else 'res'
     # the known way of writing it: first line before the loop, the loop over lines[1:].  Another slice is a violation; another way of
     # writing the loop altogether (enumerate with a first-line test, an index loop) is not something this rule can judge
     c.need(known_loop_form(f), '%s: the loop over the command lines is written in a form the rule does not know (%s)' % (f.qual, norm(loop.iter)))
-    c.check(norm(loop.iter) == '%s[1:]' % lines, f, loop, 'the loop covers every remaining line, in order',
-            witness=norm(loop.iter), kind='ast', tag='loop-lines')
+    c.check(it_txt == '%s[1:]' % lines, f, loop, 'the loop covers every remaining line, in order',
+            witness=it_txt, kind='ast', tag='loop-lines')
     lv = loop.target.id
     sends = cfg_nodes_with_call(f, lambda k: callee_last(k) == 'sendline')
     first = [(n, k) for n, k in sends if not any(p is loop for p in parent_chain(k))]
-    ok = len(first) == 1 and norm(first[0][1].args[0]) == '%s[0]' % lines and g.dominated_by(hdr, {first[0][0]})[0]
+    ok = len(first) == 1 and first[0][1].args and (ctext(first[0][1].args[0], f, keep=keep_) or norm(first[0][1].args[0])) == '%s[0]' % lines and g.dominated_by(hdr, {first[0][0]})[0]
     c.check(ok, f, first[0][1] if first else None, 'the first line is sent once, before the loop', kind='ast', tag='first-line')
     inl = [(n, k) for n, k in sends if any(p is loop for p in parent_chain(k))]
     body = [s for s, l in hdr.succ if l == 'true']
